@@ -138,6 +138,55 @@ def roundtrip(ctx, key, with_time, with_meta, with_raw, declared, entry, api):
                        native=nat_field("raw_metadata", lambda cz: None))
 
 
+def rewrite(ctx, same_data, api):
+    """A key written twice: lookups and listings return what the SECOND writer attached."""
+    scn = ctx.new_scn(api=api)
+    I = scn.s.I
+    D = scn.blob("D")
+    E = D if same_data else scn.blob("E")
+    T1, T2 = scn.sym("time1", 128), scn.sym("time2", 128)
+    tag = "C11:%s:rewrite:%s" % (api, "same" if same_data else "other")
+    sris = []
+    for (blob, T, meta, raw) in ((D, T1, METAS[1], b"one"), (E, T2, METAS[3], b"two!")):
+        r = scn.open("k", {"time": T, "metadata": JsonValue(meta), "raw_metadata": SBytes.of(raw)})
+        if not expect_ok(ctx, r, tag + ":open", "open"):
+            return
+        if not expect_ok(ctx, scn.hwrite_all(r.handle, scn.whole(blob)), tag + ":write", "write"):
+            return
+        r = scn.commit(r.handle)
+        if not expect_ok(ctx, r, tag + ":commit", "commit"):
+            return
+        sris.append(r.value)
+    out = scn.metadata("k")
+    step = last(scn)
+    if not expect_ok(ctx, out, tag + ":lookup", "lookup"):
+        return
+    lst = scn.list()
+    if not expect_ok(ctx, lst, tag + ":list", "list"):
+        return
+    cands = []
+    if out.value.vname == "Some":
+        cands.append(("metadata", out.value.fields[0]))
+    oks = [x.fields[0] for x in lst.value.items if x.vname == "Ok"]
+    if len(oks) == 1:
+        cands.append(("list", oks[0]))
+    ctx.expect(len(cands) == 2, tag + ":count", "after two writes to one key, lookup/listing do not each yield one entry",
+               native={"kind": "not", "of": {"kind": "value_is", "step": step, "value": {"meta": None}}})
+    for how, m in cands:
+        t = field(m, "time")
+        nat_t = (lambda cz: {"kind": "meta_field", "step": step, "field": "time", "value": str(cz.ev(T2))}) if how == "metadata" else None
+        ctx.expect((t if is_sym(t) else z3.BitVecVal(t, 128)) == T2, tag + ":%s:time" % how, "%s returns the time of the first write" % how, native=nat_t)
+        md = field(m, "metadata")
+        ctx.expect(isinstance(md, JsonValue) and md.py == METAS[3], tag + ":%s:metadata" % how, "%s returns the metadata of the first write" % how,
+                   native={"kind": "meta_field", "step": step, "field": "metadata", "value": METAS[3]} if how == "metadata" else None)
+        rm = field(m, "raw_metadata")
+        good = isinstance(rm, Adt) and rm.vname == "Some" and sb.content_eq(rm.fields[0].sb, SBytes.of(b"two!"), ctx.w) is True
+        ctx.expect(good, tag + ":%s:raw" % how, "%s returns the raw metadata of the first write" % how,
+                   native={"kind": "meta_field", "step": step, "field": "raw_metadata", "value": b"two!".hex()} if how == "metadata" else None)
+        ctx.expect(values_eq(I, field(m, "integrity"), sris[1]), tag + ":%s:integrity" % how, "%s returns the integrity of the first write" % how,
+                   native=(lambda cz: {"kind": "meta_field", "step": step, "field": "integrity", "value": cz.bytes_of(sris[1].display(I)).decode()}) if how == "metadata" else None)
+
+
 def tasks(tier, flavours):
     out = []
     keys = HOSTILE_KEYS[:4] if tier == "quick" else HOSTILE_KEYS
@@ -152,4 +201,6 @@ def tasks(tier, flavours):
         for wt, wm, wr, dec in combos:
             out.append(dict(module="C11", family="roundtrip", flavour=fl, params=dict(key="a", with_time=wt, with_meta=wm, with_raw=wr, declared=dec, entry="streamed", api=api)))
         out.append(dict(module="C11", family="roundtrip", flavour=fl, params=dict(key="a", with_time=False, with_meta=False, with_raw=False, declared=False, entry="oneshot", api=api)))
+        for same in (True, False):
+            out.append(dict(module="C11", family="rewrite", flavour=fl, params=dict(same_data=same, api=api)))
     return out
